@@ -292,13 +292,30 @@ func (c *Cond) NumWaiters() int { return len(c.waiters) }
 // ---------------------------------------------------------------- WaitGroup
 
 type WaitGroup struct {
-	real sync.WaitGroup
-	n    int
+	real    sync.WaitGroup
+	n       int
+	waiters int    // tasks parked in Wait
+	zeroGen uint64 // number of times the counter came back to zero
+	rw      int32  // stands for the real WaitGroup's semaphore word in the race model
 }
 
 //go:norace
 func (w *WaitGroup) simReady(*Task) bool { return w.n <= 0 }
 
+type wgWaiter struct {
+	w   *WaitGroup
+	gen uint64
+}
+
+//go:norace
+func (x *wgWaiter) simReady(*Task) bool { return x.w.zeroGen != x.gen }
+
+// The real WaitGroup tells the race detector that the first increment from zero
+// must be ordered with a Wait that blocks (a read of its semaphore word in Add,
+// a write by the first waiter).  The real Wait is only executed here once the
+// counter is zero and so never reaches that annotation: it is replayed on rw.
+// The two misuse panics that need a parked waiter are replayed as well.
+//
 //go:norace
 func (w *WaitGroup) Add(d int) {
 	s := S
@@ -312,6 +329,12 @@ func (w *WaitGroup) Add(d int) {
 	s.yield()
 	w.real.Add(d) // panics on a negative counter, like the real one
 	w.n += d
+	if d > 0 && w.n == d {
+		raceRead(unsafe.Pointer(&w.rw))
+	}
+	if d < 0 && w.n == 0 {
+		w.zeroGen++
+	}
 }
 
 //go:norace
@@ -328,8 +351,22 @@ func (w *WaitGroup) Wait() {
 		return
 	}
 	s.yield()
-	for w.n > 0 {
-		s.block(BKWaitGroup, uintptr(unsafe.Pointer(w)), w)
+	if w.n > 0 {
+		if w.waiters == 0 {
+			raceWrite(unsafe.Pointer(&w.rw))
+		}
+		// like the semaphore of the real one: released for good once the counter
+		// has been back to zero, whatever happens to the counter afterwards
+		ww := &wgWaiter{w: w, gen: w.zeroGen}
+		w.waiters++
+		s.block(BKWaitGroup, uintptr(unsafe.Pointer(w)), ww)
+		w.waiters--
+		if s.dead {
+			return
+		}
+		if w.n > 0 {
+			panic("sync: WaitGroup is reused before previous Wait has returned")
+		}
 	}
 	w.real.Wait()
 }
